@@ -357,6 +357,9 @@ class StrArray:
         return len(self.items)
 
     def __getitem__(self, k):
+        if isinstance(k, Arr) and str(k.dtype) == "bool":
+            keep = T.concretize_bool_array(k.a.reshape(-1))
+            return StrArray([v for v, b in zip(self.items, keep) if b])
         if isinstance(k, Arr):
             return StrArray([self.items[int(i)] for i in k.a.flat])
         if isinstance(k, (list, tuple)):
@@ -364,6 +367,15 @@ class StrArray:
         return self.items[int(k)]
 
     def __setitem__(self, k, v):
+        if isinstance(k, Arr) and str(k.dtype) == "bool":        # boolean mask (symbolic entries are decided by forking)
+            keep = T.concretize_bool_array(k.a.reshape(-1))
+            if len(keep) != len(self.items):
+                raise IndexError("boolean index did not match indexed array")
+            vals = iter(v.items) if isinstance(v, StrArray) else None
+            for i, b in enumerate(keep):
+                if b:
+                    self.items[i] = v if vals is None else next(vals)
+            return
         if isinstance(k, Arr):
             for i in k.a.flat:
                 self.items[int(i)] = v
@@ -455,6 +467,18 @@ def make_torch():
     m.clone = lambda x: x.clone()
     m.zeros = T.zeros
     m.ones = T.ones
+
+    def t_empty(*shape, dtype=None, device=None, **kw):
+        """uninitialised memory: every cell is an arbitrary value (havoc) while a symbolic run is in progress"""
+        r = T.zeros(*shape, dtype=dtype)
+        ctx = core.cur()
+        if ctx is not None:
+            isint = str(r.dtype) in T.INT_DTYPES
+            for c in np.ndindex(*r.a.shape):
+                k_ = ctx.state["uninit"] = ctx.state.get("uninit", 0) + 1
+                r.a[c] = (core.Int if isint else core.Real)("uninit!%d" % k_)
+        return r
+    m.empty = t_empty
     m.zeros_like = lambda x, dtype=None, **k: T.full_like(x, 0, dtype)
     m.ones_like = lambda x, dtype=None, **k: T.full_like(x, 1, dtype)
     m.arange = T.arange
@@ -463,6 +487,7 @@ def make_torch():
     m.index_select = lambda x, dim, index: x.index_select(dim, index)
     m.masked_select = lambda x, mask: x.masked_select(mask)
     m.meshgrid = T.meshgrid
+    m.promote_types = lambda a, b: DT(T.promote_types(a, b))
     m.abs = lambda x: abs(x)
     m.sub = lambda a, b: a - b
     m.add = lambda a, b: a + b
